@@ -37,6 +37,17 @@ func (e *Engine) writeQuery(decls, pc []string, goal string, inputs []InputTerm)
 // writeQueryV: qf=true drops every quantified assumption (a weaker antecedent: unsat stays sound, sat is only a
 // candidate model).
 func (e *Engine) writeQueryV(decls, pc []string, goal string, inputs []InputTerm, qf bool) string {
+	return e.writeQueryL(decls, pc, goal, inputs, qf, false)
+}
+
+// isBackgroundAxiom: well-typed-heap, heap-closedness, map-key typing and boxing axioms. Dropping them is a sound
+// weakening of the antecedent; they are what most often makes E-matching wander.
+func isBackgroundAxiom(a string) bool {
+	return strings.HasPrefix(a, "(forall ((r!t ") || strings.Contains(a, "(forall ((i!n Int))") && strings.HasPrefix(a, "(and (<= 0 (s.len")
+}
+
+// writeQueryL: light=true drops the background axioms (sound weakening).
+func (e *Engine) writeQueryL(decls, pc []string, goal string, inputs []InputTerm, qf, light bool) string {
 	var b bytes.Buffer
 	b.WriteString(preamble)
 	if !qf {
@@ -45,6 +56,9 @@ func (e *Engine) writeQueryV(decls, pc []string, goal string, inputs []InputTerm
 	for _, d := range reg.order {
 		if qf && strings.Contains(d, "(forall ") {
 			continue
+		}
+		if light && strings.HasPrefix(d, "(assert (forall ((x ") {
+			continue // boxing axioms
 		}
 		b.WriteString(d)
 		b.WriteByte('\n')
@@ -55,6 +69,9 @@ func (e *Engine) writeQueryV(decls, pc []string, goal string, inputs []InputTerm
 	}
 	for _, a := range pc {
 		if qf && (strings.Contains(a, "(forall ") || strings.Contains(a, "(exists ")) {
+			continue
+		}
+		if light && isBackgroundAxiom(a) {
 			continue
 		}
 		b.WriteString("(assert ")
@@ -195,6 +212,23 @@ func (e *Engine) solveObligation(o *Obligation) {
 			}
 		}
 		os.Remove(qf)
+	}
+	if !o.ExpectSat {
+		// step 2: without the background axioms (typing of heaps, boxing): another sound weakening that keeps the
+		// contract-level quantified facts; decides most invariant-preservation goals quickly and robustly
+		lf := e.writeQueryL(o.Decls, o.PC, o.Goal, nil, false, true)
+		r := runSolver(solvers[0], lf, 3)
+		if r.status != "unsat" {
+			r2 := runSolver(solvers[1], lf, 3)
+			if r2.status == "unsat" {
+				r = r2
+			}
+		}
+		os.Remove(lf)
+		if r.status == "unsat" {
+			o.Status, o.Solver, o.Time = "unsat", r.solver+"(light)", r.time
+			return
+		}
 	}
 	file := e.writeQuery(o.Decls, o.PC, o.Goal, o.Inputs)
 	if o.ExpectSat && cand != nil {
